@@ -63,8 +63,10 @@ Proof. witness [KUid [SOne (SNum (S_ "2"))]]. Qed.
 Lemma refuted_uid_search_ignores_keys : exists ks mb, refutes_uid CUidIgnoresKeys ks mb.
 Proof. witness [KUn FSeen]. Qed.
 
-(** OR followed by one operand with argument and nothing else: index out of
-    range — the reply is neither a result nor an error, the process ends *)
-Lemma refuted_or_panic : exists criteria mb, search (to_msgs mb) criteria = None
-  /\ search_cmd (t_ :: S_ "SEARCH" :: fields criteria) (to_msgs mb) = RPanic.
-Proof. exists (S_ "OR FROM x"), wit_mb. vm_compute. split; reflexivity. Qed.
+(** regression (fix bb43d4f): OR followed by one operand with argument and
+    nothing else used to read tokens[i] out of range (the process ended); the
+    evaluator now answers "no match" for every message, and no input makes it panic *)
+Lemma or_panic_repaired :
+  search (to_msgs wit_mb) (S_ "OR FROM x") = Some []
+  /\ search_cmd (t_ :: S_ "SEARCH" :: fields (S_ "OR FROM x")) (to_msgs wit_mb) = ROk [].
+Proof. vm_compute. split; reflexivity. Qed.
